@@ -1,19 +1,20 @@
 // C19: the server address the proxy sends to a backend.
 //
-//  * forwarding none / velocity (and any mode when the target server brings its own
-//    HandshakeAddresser, which by Gate's documented contract replaces the forwarding scheme):
-//    the first NUL-separated part of the address is the player's virtual host, for every
-//    client type, Forge marker and address hook that appends.
-//  * legacy / BungeeGuard forwarding: the address is exactly
-//    backendAddr NUL playerIP NUL undashedUUID NUL json(properties [+extraData] [+token])
-//    as a BungeeCord-style backend parses it (split on NUL into exactly 4, JSON array of
-//    {name,value,signature}).
+//   - forwarding none / velocity (and any mode when the target server brings its own
+//     HandshakeAddresser, which by Gate's documented contract replaces the forwarding scheme):
+//     the first NUL-separated part of the address is the player's virtual host, for every
+//     client type, Forge marker and address hook that appends.
+//   - legacy / BungeeGuard forwarding: the address is exactly
+//     backendAddr NUL playerIP NUL undashedUUID NUL json(properties [+extraData] [+token])
+//     as a BungeeCord-style backend parses it (split on NUL into exactly 4, JSON array of
+//     {name,value,signature}).
 //
 // Observation points (through verif_hooks_c19.go, which only constructs and calls):
-//   client Handshake -> real handshakeSessionHandler.handleHandshake (derives the connection
-//   type and the stored virtual host) -> real serverConnection.startHandshake on a recording
-//   backend connection -> the Handshake packet buffered for the backend. A second stream calls
-//   serverConnection.handshakeAddr directly with arbitrary vHost strings and forced types.
+//
+//	client Handshake -> real handshakeSessionHandler.handleHandshake (derives the connection
+//	type and the stored virtual host) -> real serverConnection.startHandshake on a recording
+//	backend connection -> the Handshake packet buffered for the backend. A second stream calls
+//	serverConnection.handshakeAddr directly with arbitrary vHost strings and forced types.
 //
 // The oracle (reference constructor + parser below) imports no Gate code.
 package c19
@@ -206,6 +207,10 @@ func genRemote(rng *rand.Rand) remoteCase {
 }
 
 var backendAddrs = []string{"10.0.0.1:25566", "127.0.0.1:25565", "[2001:db8::1]:25565", "backend.local:25565", "lobby:30000", "backend-without-port"}
+
+// host part of each backend address, by construction
+var backendHosts = map[string]string{"10.0.0.1:25566": "10.0.0.1", "127.0.0.1:25565": "127.0.0.1", "[2001:db8::1]:25565": "2001:db8::1",
+	"backend.local:25565": "backend.local", "lobby:30000": "lobby", "backend-without-port": "backend-without-port"}
 
 // serverInfo variants: plain, or with a HandshakeAddresser that keeps the host as prefix.
 type appendingServer struct {
@@ -490,10 +495,7 @@ func TestC19(t *testing.T) {
 				// no virtual host at all: Gate substitutes the backend host
 				r.Count("empty_client_host_substituted", 1)
 				substituted = true
-				want = firstPart(got)
-				if bh := netutil.HostStr(backend); firstPart(got) != bh {
-					r.Count("empty_client_host_not_backend_host", 1)
-				}
+				want = backendHosts[backend]
 			}
 			gotFirst := firstPart(got)
 			switch {
